@@ -24,6 +24,8 @@ struct C20TPlan
   int cxx_locale;            // 1: the application has made the user's locale (decimal comma, digit grouping) the global C++ locale
   int huge_names;            // 1: every event carries a name of 40000-100000 characters (few events make megabytes of log text)
   int many_names;            // 1: event names come from a pool of 200 distinct strings (short and long), not from 4
+  int same_names;            // 1: every recording thread calls itself "worker" (a thread pool); threads are then matched by their event sequences
+  int leave_open;            // 1: the log is saved while the threads' last begin events are still open (no matching end recorded)
 };
 struct C20IPlan
 {
